@@ -151,7 +151,117 @@ theorem specUpTo_prefix (p : α) (b : List α) (h : p ∈ b) :
           simp only [List.dropLast_cons_cons, List.mem_cons, not_or]
           exact ⟨fun e => hx e.symm, h3⟩
 
+/-! ## History-level chain view: confirmed output is never retracted
+
+`runOut` also collects what `pop_with_depth` returned over a whole history. The followed
+chain is `popped ++ buffer`; the theorems below say that roll-forward extends it, popping
+leaves it unchanged (it only moves the confirmed/volatile boundary), and a roll-back — found
+or not — never touches what has already been popped. -/
+
+/-- run a history, collecting every popped point in order -/
+def runOut (b : Buf α) (acc : List α) : List (Op α) → List α × Buf α
+  | [] => (acc, b)
+  | .fwd p :: ops => runOut (rollForward b p) acc ops
+  | .back p :: ops => runOut (rollBack b p).2 acc ops
+  | .pop d :: ops => runOut (popWithDepth b d).2 (acc ++ (popWithDepth b d).1) ops
+
+theorem runOut_buf (b : Buf α) (acc : List α) (ops : List (Op α)) :
+    (runOut b acc ops).2 = run b ops := by
+  induction ops generalizing b acc with
+  | nil => rfl
+  | cons op ops ih =>
+    cases op <;> simp only [runOut, run, List.foldl_cons, step] <;> exact ih _ _
+
+/-- popped output only ever grows: what was confirmed before a history is a prefix of what
+    is confirmed after it, whatever roll-backs the history contains -/
+theorem popped_monotone (b : Buf α) (acc : List α) (ops : List (Op α)) :
+    ∃ more, (runOut b acc ops).1 = acc ++ more := by
+  induction ops generalizing b acc with
+  | nil => exact ⟨[], by simp [runOut]⟩
+  | cons op ops ih =>
+    cases op with
+    | fwd p => exact ih _ _
+    | back p => exact ih _ _
+    | pop d =>
+      obtain ⟨m, hm⟩ := ih (popWithDepth b d).2 (acc ++ (popWithDepth b d).1)
+      exact ⟨(popWithDepth b d).1 ++ m, by simp only [runOut, hm, List.append_assoc]⟩
+
+/-- a roll-back keeps a prefix of the buffer (nothing is invented or reordered) -/
+theorem rollBack_prefix (b : Buf α) (p : α) : ∃ rest, b = (rollBack b p).2 ++ rest := by
+  by_cases h : p ∈ b
+  · obtain ⟨rest, h1, _⟩ := specUpTo_prefix p b h
+    exact ⟨rest, by rw [rollback_found b p h]; exact h1⟩
+  · exact ⟨b, by rw [rollback_missing b p h]; rfl⟩
+
+/-- without roll-backs the followed chain `popped ++ buffer` is exactly the start chain
+    extended by the forwarded points, in order: nothing is lost, duplicated or reordered,
+    for any interleaving of `roll_forward` and `pop_with_depth` at any depths -/
+def forwarded : List (Op α) → List α
+  | [] => []
+  | .fwd p :: ops => p :: forwarded ops
+  | _ :: ops => forwarded ops
+
+def noBack : List (Op α) → Bool
+  | [] => true
+  | .back _ :: _ => false
+  | _ :: ops => noBack ops
+
+theorem chain_conserved (b : Buf α) (acc : List α) (ops : List (Op α)) (h : noBack ops = true) :
+    (runOut b acc ops).1 ++ (runOut b acc ops).2 = acc ++ b ++ forwarded ops := by
+  induction ops generalizing b acc with
+  | nil => simp [runOut, forwarded]
+  | cons op ops ih =>
+    cases op with
+    | fwd p =>
+      simp only [runOut, forwarded]
+      rw [ih _ _ (by simpa [noBack] using h)]; simp [rollForward]
+    | back p => simp [noBack] at h
+    | pop d =>
+      simp only [runOut, forwarded]
+      rw [ih _ _ (by simpa [noBack] using h)]
+      have := (pop_partition b d).1
+      rw [List.append_assoc acc, this]
+
+/-- in general (roll-backs included) the followed chain after a history is the confirmed
+    part, which extends what was confirmed before, followed by the buffer -/
+theorem chain_after_history (b : Buf α) (acc : List α) (ops : List (Op α)) :
+    ∃ more, (runOut b acc ops).1 ++ (runOut b acc ops).2 = acc ++ more ++ run b ops := by
+  obtain ⟨m, hm⟩ := popped_monotone b acc ops
+  exact ⟨m, by rw [hm, runOut_buf]⟩
+
+/-- after a handled roll-back the tip is the requested point -/
+theorem latest_after_rollback (b : Buf α) (p : α) (h : p ∈ b) :
+    latest (rollBack b p).2 = some p := by
+  obtain ⟨_, _, h2, _⟩ := specUpTo_prefix p b h
+  rw [rollback_found b p h]; exact h2
+
+/-- rolling back twice to the same buffered point is the same as once -/
+theorem rollBack_idem (b : Buf α) (p : α) (h : p ∈ b) :
+    rollBack (rollBack b p).2 p = rollBack b p := by
+  have hm : ∀ l : List α, p ∈ l → p ∈ specUpTo p l ∧ specUpTo p (specUpTo p l) = specUpTo p l := by
+    intro l hl
+    induction l with
+    | nil => simp at hl
+    | cons x xs ih =>
+      by_cases hx : x = p
+      · simp [specUpTo, hx]
+      · have : p ∈ xs := by
+          rcases List.mem_cons.mp hl with e | e
+          · exact absurd e.symm hx
+          · exact e
+        obtain ⟨i1, i2⟩ := ih this
+        exact ⟨by simp [specUpTo, hx, i1], by simp [specUpTo, hx, i2]⟩
+  rw [rollback_found b p h]
+  obtain ⟨m1, m2⟩ := hm b h
+  rw [rollback_found _ p m1, m2]
+
+theorem latest_after_fwd (b : Buf α) (p : α) : latest (rollForward b p) = some p := by
+  simp [latest, rollForward]
+
 /-! ## Non-vacuity -/
+example : runOut [1, 2] [] [.fwd 3, .pop 1, .back 3, .fwd 4, .pop 0] = ([1, 2, 3, 4], ([] : List Nat)) := by
+  decide
+example : noBack ([.fwd 3, .pop 1, .fwd 4] : List (Op Nat)) = true := by decide
 example : rollBack [1, 2, 3, 2, 4] 2 = (.handled, [1, 2]) := by decide
 example : rollBack [1, 2, 3] 7 = (.outOfScope, ([] : List Nat)) := by decide
 example : popWithDepth [1, 2, 3, 4, 5] 2 = ([1, 2, 3], [4, 5]) := by decide
